@@ -17,3 +17,6 @@ import Gleece.Properties.Link
 #print axioms Gleece.Link.reduceRoute_names
 #print axioms Gleece.Link.reduced_path_required
 #print axioms Gleece.Link.accepted_route_path_params_partial
+#print axioms Gleece.Doc.templateParams_normPath
+#print axioms Gleece.Doc.tpa_buffer_irrelevant
+#print axioms Gleece.Link.accepted_route_document_closed_partial
